@@ -146,14 +146,15 @@ new.append(entry("C05",
 
 new.append(entry("C13", conformance=["timeconf"],
     functions=["types.ToDate", "types.ParseDate", "types.(*Date).UnmarshalUT0311L0x", "types.(Date).MarshalUT0311L0x", "types.(*DateTime).UnmarshalUT0311L0x", "types.(DateTime).MarshalUT0311L0x",
-               "types.(*SystemDate).UnmarshalUT0311L0x", "types.(*SystemTime).UnmarshalUT0311L0x", "types.lemmaRoundTripDate", "types.lemmaRoundTripDateTime"],
-    scope=[r"^types\."],
+               "types.(*SystemDate).UnmarshalUT0311L0x", "types.(*SystemTime).UnmarshalUT0311L0x", "types.lemmaRoundTripDate", "types.lemmaRoundTripDateTime",
+               "uhppote.(*uhppote).GetStatus$1", "uhppote.(*uhppote).Listen$1", "uhppote.(*uhppote).GetStatus"],
+    scope=[r"^types\.", r"^uhppote\.\(\*uhppote\)\.(GetStatus|Listen)\$1#", r"^uhppote\.\(\*uhppote\)\.GetStatus#ensures:result$"],
     pinned_file="pins_types.json", pinned_labels=["contract"],
     replay=[{"match": "lemmaRoundTripDateTime", "driver": "types_wire", "pkg": "types", "case": "zones"},
             {"match": "#ensures:civil", "driver": "types_wire", "pkg": "types", "case": "midnight"}] + WIRE_REPLAY,
     assumptions=["model of package time (spec/time.spec): a time.Time is (abs, ns, loc); the zone offset off(loc, u) is an uninterpreted function with |off| < 86400 - this is the quantifier over every IANA zone as the process-local zone; time.Date / ParseInLocation return abs = C - off(C - off(C)) (the library's algorithm) and, when the civil time exists in the zone, exactly the requested fields (documented guarantee); proleptic Gregorian calendar as an axiomatised bijection day number <-> (y, m, d)",
                  "time.Format for the layouts 20060102, 20060102150405, 060102, 150405 yields the two-digit groups of the civil fields"],
-    not_decided=["Date.UnmarshalJSON / DateTime JSON forms (C14)", "the recombination of system date and time in GetStatus / Listen (sysdatetime closures): covered only through the SystemDate/SystemTime decoder contracts"],
+    not_decided=["Date.UnmarshalJSON / DateTime JSON forms (C14)"],
     explanation="Every date producer (ToDate, ParseDate, the wire decoders of Date, DateTime, SystemDate, SystemTime) is verified against a `civil` postcondition: whenever the calendar day (the civil date-time) exists in the process-local zone, the result has exactly the requested year, month, day (hour, minute, second); the wire encoders write exactly the civil fields; lemmaRoundTripDate / lemmaRoundTripDateTime compose the two from the contracts alone, for the zero values too. The zone offset function is uninterpreted, so the proof covers every zone."))
 
 
@@ -234,25 +235,25 @@ new.append(entry("C09", level="other",
 
 
 new.append(entry("C10", level="other",
-    functions=["uhppote.(*uhppote).listen$1", "uhppote.(*uhppote).listen", "messages.lemmaDecodeEvent", "messages.lemmaDecodeEventV6_62", "messages.lemmaDecodeGetStatusResponse"],
-    scope=[r"^uhppote\.\(\*uhppote\)\.listen", r"^messages\.lemmaDecode(Event|EventV6_62|GetStatusResponse)#"],
+    functions=["uhppote.(*uhppote).listen$1", "uhppote.(*uhppote).listen", "uhppote.(*uhppote).Listen$1", "uhppote.(*uhppote).Listen$2", "uhppote.(*ut0311).Listen$2", "messages.lemmaDecodeEvent", "messages.lemmaDecodeEventV6_62", "messages.lemmaDecodeGetStatusResponse"],
+    scope=[r"^uhppote\.\(\*uhppote\)\.listen", r"^uhppote\.\(\*uhppote\)\.Listen\$[12]#", r"^uhppote\.\(\*ut0311\)\.Listen\$2#", r"^messages\.lemmaDecode(Event|EventV6_62|GetStatusResponse)#"],
     pinned_file="pins_uhppote.json", pinned_labels=["contract", "macro"],
     assumptions=COMMON_ASSUME + ["Listener callbacks are counted by ghost counters (interface contracts Listener.OnError / OnEvent / OnConnected); a channel send is a ghost event of the function (chansends / chansent)",
                                  "driver.Listen starts the receive loop and returns (interface contract without obligations)"],
     not_decided=["exactly-once / in-order delivery ACROSS the two goroutines and the unbuffered channel, shutdown ordering, re-binding immediately: statements about interleavings",
-                 "the dispatch goroutine of Listen (maps a received event to types.Status and calls OnEvent): its body is not under contract - an infinite receive loop whose per-iteration statement has no handle in a function contract; the same field mapping is verified for GetStatus (C02)",
+                 "that a delivered status 'does not change afterwards' is decided only as: its door maps are allocated per event (fresh); the status struct itself is a local of the loop body",
                  "ut0311.Listen (receive loop with goroutines)"],
-    explanation="Decided per datagram: the receive handler (closure listen$1) produces for EVERY byte string exactly one of - one send of a freshly decoded event on the pipe, and then the datagram was 64 bytes, protocol id 0x17 or 0x19, function code 0x20, non-zero serial number, boolean bytes 0/1, and every field of the event is the protocol decoding of the datagram - or exactly one OnError callback and no send; it never calls OnEvent/OnConnected. listen() calls OnConnected exactly once, after driver.Listen returned nil, and returns nil; on a driver error it returns the error without OnConnected. Level 'other': the cross-goroutine clauses cannot be expressed as function contracts."))
+    explanation="Decided per datagram: the receive handler (closure listen$1) produces for EVERY byte string exactly one of - one send of a freshly decoded event on the pipe, and then the datagram was 64 bytes, protocol id 0x17 or 0x19, function code 0x20, non-zero serial number, boolean bytes 0/1, and every field of the event is the protocol decoding of the datagram - or exactly one OnError callback and no send; it never calls OnEvent/OnConnected. the dispatch goroutine (closure Listen$2) calls OnEvent exactly once per event received from the pipe, with a status whose every field is the mapping of that event (precondition of the Listener.OnEvent contract, checked at the single call site; event present iff index != 0; system date and time combined by the verified closure Listen$1) and never calls OnError/OnConnected; listen() calls OnConnected exactly once, after driver.Listen returned nil, and returns nil; on a driver error it returns the error without OnConnected. Level 'other': the cross-goroutine clauses cannot be expressed as function contracts."))
 
 
 new.append(entry("C11", level="other",
-    functions=["uhppote.(*uhppote).GetDevices", "messages.lemmaDecodeGetDeviceResponse", "messages.lemmaRoundTripGetDeviceRequest"],
-    scope=[r"^uhppote\.\(\*uhppote\)\.GetDevices#", r"^messages\.lemma(DecodeGetDeviceResponse|RoundTripGetDeviceRequest)#"],
+    functions=["uhppote.(*uhppote).GetDevices", "uhppote.(*ut0311).Broadcast$1", "messages.lemmaDecodeGetDeviceResponse", "messages.lemmaRoundTripGetDeviceRequest"],
+    scope=[r"^uhppote\.\(\*uhppote\)\.GetDevices#", r"^uhppote\.\(\*ut0311\)\.Broadcast\$1#", r"^messages\.lemma(DecodeGetDeviceResponse|RoundTripGetDeviceRequest)#"],
     pinned_file="pins_uhppote.json", pinned_labels=["contract", "macro"],
     assumptions=COMMON_ASSUME + ["driver.Broadcast (interface contract): one discovery request handed to the driver, the datagrams collected within the timeout returned in arrival order - the collector goroutine of ut0311.Broadcast itself is outside the sequential subset"],
     not_decided=["that each returned entry is the protocol decoding of ITS reply, in arrival order, duplicates included: the filter-map over []any would need a ghost index sequence relating result k to datagram f(k); what is decided instead: decoding of one get-device reply (lemmaDecodeGetDeviceResponse, and the same field mapping in GetDevice under C02)",
                  "that every well-formed reply yields an entry (only the upper bound len(result) <= number of datagrams is proved)"],
-    explanation="GetDevices is verified with broadcast() and the reflective codec executed in place (loop invariants for both loops): exactly one discovery request (function 0x94, serial 0, zero elsewhere) is handed to driver.Broadcast, addressed to the configured broadcast address (255.255.255.255:60000 by default); the call fails only if the driver fails - a wrong-length or undecodable datagram never makes it fail (`total`); the result has at most one entry per datagram; every entry's address carries the broadcast port (60000 by default) and the name of the matching configured controller (`ports`, `names`); no run-time panic, including the type assertion on the decoded replies. Level 'other': the per-entry decoding/order clause is not decided."))
+    explanation="GetDevices is verified with broadcast() and the reflective codec executed in place (loop invariants for both loops): the reply collector of ut0311.Broadcast (goroutine body) keeps every collected datagram in a buffer of its own (pairwise distinct blocks: a later datagram cannot change an earlier reply); exactly one discovery request (function 0x94, serial 0, zero elsewhere) is handed to driver.Broadcast, addressed to the configured broadcast address (255.255.255.255:60000 by default); the call fails only if the driver fails - a wrong-length or undecodable datagram never makes it fail (`total`); the result has at most one entry per datagram; every entry's address carries the broadcast port (60000 by default) and the name of the matching configured controller (`ports`, `names`); no run-time panic, including the type assertion on the decoded replies. Level 'other': the per-entry decoding/order clause is not decided."))
 
 ids = {e["id"] for e in new}
 out = [p for p in props if p["id"] not in ids] + new
